@@ -244,11 +244,33 @@ class Run:
     def name(i):
         return "T%d" % i
 
+    def _reload(self, p):
+        """the caller in rbacx.policy.loader: a HotReloader whose source now holds policy p."""
+        from rbacx.policy.loader import HotReloader
+
+        run = self
+
+        class Source:
+            cur = 0
+
+            def etag(self):
+                return "v%d" % Source.cur
+
+            def load(self):
+                return copy.deepcopy(run.pols[Source.cur])
+
+        hr = HotReloader(self.guard, Source(), initial_load=False, poll_interval=None)
+        Source.cur = p
+        if hr.check_and_reload() is not True:
+            raise RuntimeError("HotReloader did not apply the changed policy")
+
     def _target(self, i):
         def target():
             for op in self.progs[i]:
                 if op[0] == "set":
                     self.guard.set_policy(copy.deepcopy(self.pols[op[1]]))
+                elif op[0] == "reload":
+                    self._reload(op[1])
                 else:
                     # what evaluate_sync does, with a loop of our own (asyncio.run would add a helper
                     # thread per call only to shut the executor down)
@@ -295,7 +317,7 @@ class Run:
         for k, raw in cache_items(self.cache).items():
             ke = [pe for pe, kk in exp["key"].items() if kk == k]
             re_ = [pe for pe, rr in exp["raw"].items() if rr == raw]
-            if ke:
+            if len(ke) == 1:      # the key names exactly one (policy tag, request)
                 kp, kenv = ke[0]
                 dp = [p for (p, e) in re_ if e == kenv]
                 view.append([kp, kenv, dp[0] if dp else -1])
@@ -479,8 +501,10 @@ def model_cfg(case):
 
 
 def model_progs(case):
-    """the case's threads plus one thread doing the fresh evaluations afterwards."""
-    return case["progs"] + [[["eval", e] for e in case.get("post", [])]]
+    """the case's threads plus one thread doing the fresh evaluations afterwards (a reload through
+    HotReloader is a set_policy call)."""
+    progs = [[["set", op[1]] if op[0] == "reload" else op for op in prog] for prog in case["progs"]]
+    return progs + [[["eval", e] for e in case.get("post", [])]]
 
 
 def model_coarse(cases):
@@ -538,13 +562,13 @@ def final_policy(case):
     p = 0
     for prog in case["progs"]:
         for op in prog:
-            if op[0] == "set":
+            if op[0] in ("set", "reload"):
                 p = op[1]
     return p
 
 
 def installed(case):
-    return sorted({0} | {op[1] for prog in case["progs"] for op in prog if op[0] == "set"})
+    return sorted({0} | {op[1] for prog in case["progs"] for op in prog if op[0] in ("set", "reload")})
 
 
 def judge_property(chk, case, impl):
@@ -636,7 +660,9 @@ THEOREMS = ["c09_coherent", "c09_snapshot", "c09_after_update", "c09_no_stale_en
 # check_cases
 # ----------------------------------------------------------------------------------
 def check_cases(chk, cases, replay=False):
-    cases = [c for c in cases]
+    if any(c.get("kind") == "extraction" for c in cases):
+        extraction_checks(chk)
+    cases = [c for c in cases if c.get("kind") != "extraction"]
     coarse = [c for c in cases if c["kind"] == "coarse"]
     others = [c for c in cases if c["kind"] != "coarse"]
     impl_all = run_impl(coarse + others)
@@ -753,6 +779,30 @@ def corpus_cases():
     return out
 
 
+def extraction_checks(chk):
+    """the extracted runner against results proved inside Coq by vm_compute."""
+    # extraction cross-check: the old-protocol model, extracted, shows the stale entry proved in Coq
+    o = lib.dec(lib.run_model("swap", [lib.model_call(
+        "swap.runold", {"p0": 0, "untagged": [], "uncompilable": []},
+        [[["set", 1]], [["eval", 7]], [["eval", 7]]], [0, 0, 0, 1, 1, 1, 1, 0, 0, 1, 1, 1, 1, 2, 2, 2, 2])])[0])
+    if o["cache"] != [[1, 7, [0, 7]]] or ["ret", 2, 7, [0, 7]] not in o["log"]:
+        chk.corr_break("extracted old-protocol model does not reproduce c09_refuted_unlocked", {"kind": "extraction"},
+                       impl=o, model="cache [(1,7)->(0,7)]", theorems=["c09_refuted_unlocked"])
+
+    # ... and the extracted current-protocol model reproduces the run proved in Coq by vm_compute
+    # (Example c09_example_log: the F7 schedule on the current protocol)
+    ex = lib.dec(lib.run_model("swap", [lib.model_call(
+        "swap.run", {"p0": 0, "has_cache": True, "untagged": [], "uncompilable": []},
+        [[["set", 1]], [["eval", 7]], [["eval", 7]]],
+        [1, 1, 1, 1, 0, 0, 0, 0, 1, 1, 1, 0, 0, 0, 0, 1, 1, 1, 1, 1, 1] + [2] * 14)])[0])
+    want_log = [["start", 1, 7], ["upstart", 0, 1], ["pub", 0, 1], ["upret", 0, 1], ["ret", 1, 7, [0, 7]],
+                ["start", 2, 7], ["ret", 2, 7, [1, 7]]]
+    if ex["log"] != want_log or ex["cache"] != [[1, 7, [1, 7]]] or not all(ex["enabled"]):
+        chk.corr_break("extracted model differs from the vm_compute result of c09_example_log", {"kind": "extraction"},
+                       impl=ex, model=want_log, theorems=["c09_example_log"])
+
+
+
 def run(chk):
     t0 = time.time()
     quick = chk.tier == "quick"
@@ -779,13 +829,7 @@ def run(chk):
     cc = corpus_cases()
     check_cases(chk, cc)
     chk.extra["corpus_cases"] = len(cc)
-    # extraction cross-check: the old-protocol model, extracted, shows the stale entry proved in Coq
-    o = lib.dec(lib.run_model("swap", [lib.model_call(
-        "swap.runold", {"p0": 0, "untagged": [], "uncompilable": []},
-        [[["set", 1]], [["eval", 7]], [["eval", 7]]], [0, 0, 0, 1, 1, 1, 1, 0, 0, 1, 1, 1, 1, 2, 2, 2, 2])])[0])
-    if o["cache"] != [[1, 7, [0, 7]]] or ["ret", 2, 7, [0, 7]] not in o["log"]:
-        chk.corr_break("extracted old-protocol model does not reproduce c09_refuted_unlocked", {"kind": "extraction"},
-                       impl=o, model="cache [(1,7)->(0,7)]", theorems=["c09_refuted_unlocked"])
+    extraction_checks(chk)
 
     cases = []
     enum_stats = {}
@@ -813,6 +857,12 @@ def run(chk):
         for s in scheds:
             cases.append({"kind": "coarse", "cache": "builtin", "pol": "mixed", "nocompile": True, "progs": progs,
                           "sched": s, "post": [0, 1], "fam": "U||E"})
+    # 1c. the replacement made by the real caller: HotReloader.check_and_reload() || evaluate
+    for e in ((0,) if quick else (0, 1)):
+        scheds, _ = enumerate_coarse("builtin", [U1, [["eval", e]], []])
+        for s in scheds:
+            cases.append({"kind": "coarse", "cache": "builtin", "pol": "single", "progs": [[["reload", 1]], [["eval", e]]],
+                          "sched": s, "post": [0, 1], "fam": "HotReloader||E"})
     chk.exhaustive = True
     # 2. A -> B -> A || one evaluator
     for ci, (cache, pol) in enumerate(CONFIGS):
@@ -829,7 +879,7 @@ def run(chk):
     for ci, (cache, pol) in enumerate(CONFIGS):
         for e2 in (0, 1):
             progs = [U1, [["eval", 0]], [["eval", e2]]]
-            scheds, _ = enumerate_coarse(cache, progs + [[]], limit=(100 if quick else 4000), rng=rng)
+            scheds, _ = enumerate_coarse(cache, progs + [[]], limit=(100 if quick else 6000), rng=rng)
             for s in scheds:
                 cases.append({"kind": "coarse", "cache": cache, "pol": pol, "progs": progs, "sched": s,
                               "post": [0, 1], "fam": "U||E||E"})
@@ -868,7 +918,8 @@ def run(chk):
     # 5b. source-line granularity, pre-emption bounded
     base = {"cache": "builtin", "pol": "mixed", "nocompile": True, "progs": [U1, [["eval", 0]]], "post": [0, 1],
             "fam": "lines:U||E"}
-    searched["lines U||E builtin/mixed/nocompile bound 2"] = line_search(chk, base, 2, 1500 if quick else 6000)
+    searched["lines U||E builtin/mixed/nocompile bound %d" % bound] = line_search(chk, base, bound,
+                                                                                   1500 if quick else 20000)
     base = {"cache": "builtin", "pol": "single", "progs": [U1, [["eval", 0]]], "post": [0, 1], "fam": "lines:U||E"}
     searched["lines U||E builtin/single bound %d" % bound] = line_search(chk, base, bound, 1200 if quick else 60000)
     if not quick:
@@ -876,7 +927,7 @@ def run(chk):
         searched["lines U||E dict/set bound 2"] = line_search(chk, base, 2, 5000)
         base = {"cache": "builtin", "pol": "single", "progs": [U2, [["eval", 0]]], "post": [0, 1],
                 "fam": "lines:ABA||E"}
-        searched["lines ABA||E builtin/single bound 2"] = line_search(chk, base, 2, 8000)
+        searched["lines ABA||E builtin/single bound 3"] = line_search(chk, base, 3, 25000)
     rnd = []
     for k in range(150 if quick else 4000):
         cache, pol = CONFIGS[k % len(CONFIGS)]
